@@ -35,6 +35,10 @@ var (
 	_ Reader = &MIDIReader{}
 )
 
+// MaxReadTrackNum is the largest number of tracks the reader can handle:
+// smf.ReadTracksFrom counts the tracks of a file in an int16.
+const MaxReadTrackNum = 32768
+
 func NewReader() *MIDIReader {
 	return &MIDIReader{}
 }
